@@ -19,8 +19,14 @@ SEED = 5
 _SEED_OVERRIDE = [None]
 
 
+_SEED_NUMPY = [False]
+
+
 def seed_value(offset=0):
     base = SEED if _SEED_OVERRIDE[0] is None else _SEED_OVERRIDE[0]
+    if _SEED_NUMPY[0]:
+        import numpy as np
+        return np.int64(base + offset)  # a seed drawn from a parent generator is a numpy integer
     return base + offset
 
 
@@ -361,18 +367,19 @@ def task(items):
     cat.discover()
     for it in items:
         _SEED_OVERRIDE[0] = 0 if it[-1] == "seed0" else None
-        if it[-1] == "seed0":
+        _SEED_NUMPY[0] = it[-1] == "npseed"
+        if it[-1] in ("seed0", "npseed"):
             it = it[:-1]
-        sfx = "|seed0" if _SEED_OVERRIDE[0] == 0 else ""
+        sfx = "|seed0" if _SEED_OVERRIDE[0] == 0 else ("|numpy_int_seed" if _SEED_NUMPY[0] else "")
         if it[0] == "spec":
             _, wrapper, placement, tspec = it
             label = f"{wrapper}/{placement}[{tname(tspec)}]{sfx}"
             sched = "cheduled" in tname(tspec)  # inside a worker a scheduled strength depends on progress, by design
             explore_stack(lambda: make_stack(wrapper, placement, tspec), label,
-                          dict(wrapper=wrapper, placement=placement, tspec=tspec), p, expect_distinct=_tensor_out(tspec),
+                          dict(wrapper=wrapper, placement=placement, tspec=tspec, seed0=sfx == "|seed0", npseed=_SEED_NUMPY[0]), p, expect_distinct=_tensor_out(tspec),
                           maxlen=3 if _tensor_out(tspec) else 2, workers=not sched)
         else:
-            explore_stack(lambda: make_special(it[1]), it[1] + sfx, dict(special=it[1], seed0=bool(sfx)), p,
+            explore_stack(lambda: make_special(it[1]), it[1] + sfx, dict(special=it[1], seed0=sfx == "|seed0", npseed=_SEED_NUMPY[0]), p,
                           expect_distinct=it[1] in ("byol_multiview", "other_items") or it[1].startswith("shared_transform"),
                           workers=it[1] != "semseg_scheduled", maxlen=3)
     p.sample(dict(item=[str(x) for x in items[0]], histories="all access sequences of length<=3 x perturbation; workers 1..3"))
@@ -403,9 +410,11 @@ def run(run):
     for sp in SPECIALS:
         items.append(("special", sp))
         items.append(("special", sp, "seed0"))  # seed 0 is legal and falsy
+        items.append(("special", sp, "npseed"))  # so is a numpy integer
     for s in probes:
         for wrapper in WRAPPERS:
             items.append(("spec", wrapper, "bare", s, "seed0"))
+            items.append(("spec", wrapper, "bare", s, "npseed"))
     chunk = 6
     run.pmap(task, [items[i:i + chunk] for i in range(0, len(items), chunk)])
     run.exhaustive = run.tier == "thorough"
@@ -426,6 +435,7 @@ def replay(case):
     p = Partial()
     cat.discover()
     _SEED_OVERRIDE[0] = 0 if case.get("seed0") else None
+    _SEED_NUMPY[0] = bool(case.get("npseed"))
     if case.get("special"):
         explore_stack(lambda: make_special(case["special"]), case["special"], dict(special=case["special"]), p, False)
     else:
